@@ -1,5 +1,7 @@
 import CwPlus.Lemmas.Cw4Stake
 import CwPlus.Lemmas.Snapshot
+import CwPlus.Props.C10
+import CwPlus.Props.C20Listings
 /-!
 # C09 — cw4: totals and point-in-time weights match the true history (cw4-stake part)
 
@@ -254,5 +256,81 @@ example : demoWorld.st.members.atHeight "alice" 100 = none ∧ demoWorld.st.memb
     demoWorld.st.members.atHeight "alice" 102 = some 5 ∧ demoWorld.st.members.atHeight "alice" 103 = some 2 ∧
     demoWorld.st.members.atHeight "bob" 102 = none ∧ weightOf demoWorld.st "bob" = some 4 ∧
     demoWorld.st.total = 6 := by decide
+
+/-! # Review round: the pieces composed -/
+
+open Paginate in
+/-- **C09 `total_eq_sum_members` (cw4-stake), over the listing a client actually fetches**: after any
+accepted instantiation and any history, paging through `ListMembers` (any page size `limit ≠ 0`, cursor =
+last address of the previous page, enough rounds) yields a list whose weights sum to `TotalWeight {}`. -/
+theorem total_eq_sum_listed {m : InstMsg} {st : State} (h : instantiate m = .ok st) (bal : AMap Addr Nat)
+    (acc : List Addr) (ops : List (Block × Op)) (limit : Option Nat) (hl : limit ≠ some 0) {fuel : Nat}
+    (hf : (run (World.init st bal acc) ops).st.members.cur.length + 1 ≤ fuel) :
+    queryTotalWeight (run (World.init st bal acc) ops).st =
+      AMap.sum (fetchLoop (fun c => Props.C20.okItems
+        (queryListMembers (run (World.init st bal acc) ops).st (c.map (⟨true, ·⟩)) limit)) (·.1) none fuel) := by
+  rw [Props.C20Listings.stake_listMembers_complete h bal acc ops limit hl hf]
+  exact (total_eq_sum_members h bal acc ops).1
+
+open Paginate in
+/-- **C09 (cw4-stake), the listing agrees with the point query** (the monitor `C09/stake/listing-vs-point`):
+after any accepted instantiation and any history, `(a, w)` is listed by `ListMembers` (all pages together)
+exactly when `Member { addr: a }` answers `w`; no address is listed twice. -/
+theorem listing_vs_point {m : InstMsg} {st : State} (h : instantiate m = .ok st) (bal : AMap Addr Nat)
+    (acc : List Addr) (ops : List (Block × Op)) (a : Addr) (w : Nat) :
+    ((a, w) ∈ sortedEntries strLt (run (World.init st bal acc) ops).st.members.cur ↔
+      weightOf (run (World.init st bal acc) ops).st a = some w) ∧
+    AMap.NodupKeys (sortedEntries strLt (run (World.init st bal acc) ops).st.members.cur) := by
+  have hn := run_nodup (w := World.init st bal acc) (instantiate_nodup h) ops
+  exact ⟨mem_sortedEntries_iff_get? strLt hn a w, sortedEntries_nodupKeys hn⟩
+
+open Paginate in
+/-- … in terms of the pages a client fetches. -/
+theorem fetched_vs_point {m : InstMsg} {st : State} (h : instantiate m = .ok st) (bal : AMap Addr Nat)
+    (acc : List Addr) (ops : List (Block × Op)) (limit : Option Nat) (hl : limit ≠ some 0) {fuel : Nat}
+    (hf : (run (World.init st bal acc) ops).st.members.cur.length + 1 ≤ fuel) (a : Addr) (w : Nat) :
+    (a, w) ∈ fetchLoop (fun c => Props.C20.okItems
+        (queryListMembers (run (World.init st bal acc) ops).st (c.map (⟨true, ·⟩)) limit)) (·.1) none fuel ↔
+      weightOf (run (World.init st bal acc) ops).st a = some w := by
+  rw [Props.C20Listings.stake_listMembers_complete h bal acc ops limit hl hf]
+  exact (listing_vs_point h bal acc ops a w).1
+
+/-- **C09 `member_at_height` composed with C10 `weight_is_quotient` / `member_iff_min_bond`**: for every
+accepted instantiation, every history at non-decreasing heights, every address and height,
+`Member { addr, at_height: h }` is what `calc_weight` says about the stake the address had at the start of
+block `h`: nothing below `min_bond`, otherwise `stake / tokens_per_weight` (which fits `u64`). -/
+theorem member_at_height_from_stake {m : InstMsg} {st : State} (hi : instantiate m = .ok st) (bal : AMap Addr Nat)
+    (acc : List Addr) (ops : List (Block × Op)) (hord : Ordered ops) (a : Addr) (h : Nat) :
+    let sh := (run (World.init st bal acc) (ops.filter (fun o => o.1.height < h))).st
+    calcWeight st.cfg (stakeOf sh a) = .ok ((run (World.init st bal acc) ops).st.members.atHeight a h) ∧
+    (run (World.init st bal acc) ops).st.members.atHeight a h =
+      (if stakeOf sh a < st.cfg.minBond then none else some (stakeOf sh a / st.cfg.tokensPerWeight)) := by
+  intro sh
+  have hw := (Props.C10.weightInv_run hi bal acc (ops.filter (fun o => o.1.height < h))).2 a
+  have hcfg : sh.cfg = st.cfg := Props.C10.cfg_run (World.init st bal acc) _
+  rw [member_at_height hi bal acc ops hord a h]
+  rw [hcfg] at hw
+  exact ⟨hw, (calcWeight_ok hw).1⟩
+
+/-! ## Non-vacuity: the theorems applied to `demoOps` -/
+
+theorem inst_cfgMsg : instantiate cfgMsg = .ok (stOf cfgMsg) := rfl
+
+example : Ordered demoOps := by unfold Ordered; decide
+example (a : Addr) (h : Nat) : demoWorld.st.members.atHeight a h
+    = weightOf (run (World.init (stOf cfgMsg) [("alice", 100), ("bob", 100)] []) (demoOps.filter (fun o => o.1.height < h))).st a :=
+  member_at_height inst_cfgMsg _ _ demoOps (by unfold Ordered; decide) a h
+example : queryTotalWeight demoWorld.st = 6 ∧ queryTotalWeight demoWorld.st ≤ U64_MAX :=
+  ⟨by decide, (total_eq_sum_members inst_cfgMsg [("alice", 100), ("bob", 100)] [] demoOps).2⟩
+example := total_eq_sum_listed inst_cfgMsg [("alice", 100), ("bob", 100)] [] demoOps (some 1) (by decide)
+  (fuel := 3) (by decide)
+example := fetched_vs_point inst_cfgMsg [("alice", 100), ("bob", 100)] [] demoOps none (by decide)
+  (fuel := 3) (by decide) "bob" 4
+/-- at height 102 alice's weight is `50 / 10 = 5` (her stake at the start of block 102 was 50) -/
+example : stakeOf (run (World.init (stOf cfgMsg) [("alice", 100), ("bob", 100)] [])
+      (demoOps.filter (fun o => o.1.height < 102))).st "alice" = 50 ∧
+    demoWorld.st.members.atHeight "alice" 102 = some (50 / 10) := by decide
+example := member_at_height_from_stake inst_cfgMsg [("alice", 100), ("bob", 100)] [] demoOps
+  (by unfold Ordered; decide) "alice" 102
 
 end CwPlus.Props.C09Stake
